@@ -88,7 +88,7 @@ pub fn set_schedule(eager: u32, fifo: bool) {
 
 pub fn set_stdin(data: Option<Vec<u8>>) {
     let tty = data.is_none();
-    simkit::with(|s| s.stdin = data.map(|d| simkit::StdinScript { data: d, pos: 0, is_tty: false }));
+    simkit::with(|s| s.stdin = data.map(|d| simkit::StdinScript { data: d, pos: 0, is_tty: false, fail_at: None }));
     sys::with(|s| s.stdin_is_tty = tty);
 }
 
@@ -182,6 +182,11 @@ pub struct LibCompress {
 
 /// `bitar::api::compress::create_archive` with a simulated source and sink.
 pub fn compress_lib(spec: &CompressSpec, source: Arc<Vec<u8>>, temp_override: Option<&str>) -> LibCompress {
+    compress_lib_failing(spec, source, temp_override, None)
+}
+
+/// like `compress_lib`; the reader fails with EIO once `fail_at` bytes have been delivered
+pub fn compress_lib_failing(spec: &CompressSpec, source: Arc<Vec<u8>>, temp_override: Option<&str>, fail_at: Option<usize>) -> LibCompress {
     use bitar::api::compress::{create_archive, CreateArchiveOptions};
     let options = CreateArchiveOptions {
         chunker_config: spec.cfg.to_config(),
@@ -191,7 +196,8 @@ pub fn compress_lib(spec: &CompressSpec, source: Arc<Vec<u8>>, temp_override: Op
         compression: spec.comp.to_bitar(),
         metadata: spec.metadata.clone(),
     };
-    let input = SimSource::drawn(source);
+    let mut input = SimSource::drawn(source);
+    input.fail_at = fail_at.map(|n| (n, std::io::ErrorKind::Other));
     let sink = SimSink::drawn();
     let sink2 = sink.clone();
     let r = run_async(async move {
